@@ -167,3 +167,410 @@ Proof.
   assert (W : wf_phase ph) by (pose proof (wf_advance _ SkCont (wf_phase_after s)) as X; rewrite A in X; exact X).
   unfold slack_of in *. apply (after_flag_exact (budget ph) fuel fr (S s) ph 0 W eq_refl F P).
 Qed.
+(* ---------- part 2: the bound on the whole machine ---------- *)
+
+Definition J (g : glob) : Prop :=
+  after_all g <= 14 + after_def g /\ (hooks g < kk g -> async (rn g) = false /\ after_all g = 0).
+
+(* counters and flag are the same *)
+Definition same_cnt (g g' : glob) : Prop :=
+  after_all g' = after_all g /\ after_def g' = after_def g /\ hooks g' = hooks g /\ kk g' = kk g /\ async (rn g') = async (rn g).
+Lemma same_cnt_refl g : same_cnt g g. Proof. repeat split. Qed.
+Lemma same_cnt_J g g' : same_cnt g g' -> J g -> J g'.
+Proof. unfold J, same_cnt. intros (A & B & C & D & E) [J1 J2]. rewrite A, B, C, D, E. auto. Qed.
+
+Lemma J_clear_async g : J g -> J (apply_async g).
+Proof. unfold J, apply_async. simpl. intros [J1 J2]. split; [exact J1|]. intros H. split; [reflexivity|]. apply J2. exact H. Qed.
+
+Lemma upd_run_cnt f g : async (f (rn g)) = async (rn g) -> same_cnt g (upd_run f g).
+Proof. intros H. repeat split; simpl; auto. Qed.
+
+(* the hook: either nothing changes for the counters, or this is the k-th call and the flag is set now *)
+Lemma hook_call_J g ov g1 : hook_call g = (ov, g1) -> J g ->
+  J g1 /\ after_all g1 = after_all g /\ after_def g1 = after_def g /\
+  (async (rn g) = true -> async (rn g1) = true) /\
+  (async (rn g) = false -> async (rn g1) = true -> after_all g1 = 0).
+Proof.
+  unfold hook_call, J. intros H [J1 J2].
+  destruct (Nat.eqb_spec (S (hooks g)) (kk g)) as [E|E].
+  - assert (L : hooks g < kk g) by lia. destruct (J2 L) as [A Z].
+    destruct (flt g); inversion H; subst; simpl; (split; [split; [assumption|intros; lia]|]); repeat split; auto; congruence.
+  - inversion H; subst; simpl. split; [split; [assumption|]|repeat split; auto; congruence].
+    intros L. apply J2. lia.
+Qed.
+
+Lemma exec_instr_cont_J fs ins g k fs1 ip i g1 : exec_instr fs ins g = RCont k fs1 ip i g1 -> J g ->
+  J g1 /\ after_all g1 = after_all g /\ after_def g1 = after_def g /\ fs_ph fs1 = fs_ph fs /\ fs_flags fs1 = fs_flags fs /\
+  (async (rn g) = true -> async (rn g1) = true) /\
+  (async (rn g) = false -> async (rn g1) = true -> after_all g1 = 0).
+Proof.
+  intros H JJ. unfold exec_instr in H.
+  destruct ins as [ins|]; [|discriminate].
+  destruct ins; try discriminate;
+    try (inversion H; subst; split; [exact JJ|repeat split; auto; intros; congruence]; fail).
+  - destruct (hook_call g) as [[v|] g2] eqn:HC; [discriminate|]. inversion H; subst.
+    destruct (hook_call_J _ _ _ HC JJ) as (A & B & C & D & E). split; [exact A|repeat split; auto].
+  - inversion H; subst. split; [exact JJ|repeat split; auto; intros; simpl in *; congruence].
+  - destruct (fs_flags fs) eqn:FLG; [|discriminate]. inversion H; subst. split; [exact JJ|repeat split; auto; intros; simpl in *; congruence].
+  - destruct (call_recover (rn g)) as [b r] eqn:CR. inversion H; subst.
+    assert (AR : async r = async (rn g)).
+    { unfold call_recover in CR. destruct (negb (ef_defer (rn g))); [inversion CR; auto|].
+      destruct (panic_fun (rn g)); [|inversion CR; auto]. destruct (defer_of (rn g)); [|inversion CR; auto].
+      destruct (n0 =? n); inversion CR; auto. }
+    split; [unfold J in *; destruct b; simpl; rewrite AR; exact JJ|destruct b; simpl; rewrite AR; repeat split; auto; intros; simpl in *; congruence].
+Qed.
+
+Lemma exec_instr_panic_J fs ins g v g1 : exec_instr fs ins g = RPanic v g1 -> J g -> J g1.
+Proof.
+  intros H JJ. unfold exec_instr in H.
+  destruct ins as [ins|]; [|discriminate].
+  destruct ins; try discriminate.
+  - destruct (hook_call g) as [[w|] g2] eqn:HC; [|discriminate]. inversion H; subst.
+    apply (hook_call_J _ _ _ HC JJ).
+  - destruct (fs_flags fs); discriminate.
+  - destruct (call_recover (rn g)); discriminate.
+  - inversion H; subst; auto.
+Qed.
+
+Lemma exec_instr_leave' fs ins g g1 : exec_instr fs ins g = RLeave g1 -> g1 = upd_run (set_sync SReturn) g.
+Proof.
+  unfold exec_instr. destruct ins as [ins|]; [|intros H; inversion H; reflexivity].
+  destruct ins; try discriminate; try (intros H; inversion H; reflexivity).
+  - destruct (hook_call g) as [[w|] g2]; discriminate.
+  - destruct (fs_flags fs); discriminate.
+  - destruct (call_recover (rn g)); discriminate.
+Qed.
+
+(* the loop invariant of a frame: while the flag is set, statements completed since + what the current block still
+   allows never exceeds 14 (defer statements not counted) *)
+Definition LI (fs : fstate) (g : glob) : Prop :=
+  wf_phase (fs_ph fs) /\ (async (rn g) = true -> after_all g + budget (fs_ph fs) <= 14 + after_def g).
+
+Lemma advance_defer_poll ph ph' c : wf_phase ph -> advance ph SkDefer = (ph', c) -> wf_phase ph' /\ (c = false -> budget ph' = 1).
+Proof.
+  intros W A. pose proof (wf_advance ph SkDefer W) as X. rewrite A in X. split; [exact X|].
+  intros ->. apply (advance_defer_budget _ _ A).
+Qed.
+
+Lemma after_stmt_J a0 fs k fs1 ip i g :
+  J g -> wf_phase (fs_ph fs) -> fs_ph fs1 = fs_ph fs -> fs_flags fs1 = fs_flags fs ->
+  (a0 = true -> async (rn g) = true) ->
+  (a0 = false -> async (rn g) = true -> after_all g = 0) ->
+  (a0 = true -> after_all g + budget (fs_ph fs) <= 14 + after_def g) ->
+  match after_stmt a0 fs k fs1 ip i g with
+  | CGo fs' g' => J g' /\ LI fs' g' /\ fs_flags fs' = fs_flags fs
+  | CIntrFlags fs2 g' => J g' /\ async (rn g') = false /\ fs_flags fs = true
+  | CIntrPlain g' => J g' /\ async (rn g') = false
+  end.
+Proof.
+  intros [J1 J2] W PH FL ST FR BU. unfold after_stmt. rewrite PH.
+  pose proof (budget_pos _ W) as BP. pose proof (budget_le _ W) as BL.
+  destruct (advance (fs_ph fs) k) as [ph poll] eqn:ADV.
+  assert (Wph : wf_phase ph) by (pose proof (wf_advance (fs_ph fs) k W) as X; rewrite ADV in X; exact X).
+  set (g1 := if a0 then bump_after (sk_is_defer k) g else g).
+  assert (A1 : async (rn g1) = async (rn g)) by (unfold g1; destruct a0; reflexivity).
+  assert (H1 : hooks g1 = hooks g /\ kk g1 = kk g) by (unfold g1; destruct a0; split; reflexivity).
+  (* the counters of g1 *)
+  assert (CNT : async (rn g) = true ->
+            after_all g1 + (if poll then 0 else budget ph) <= 14 + after_def g1).
+  { intros AT. unfold g1. destruct a0 eqn:A0.
+    - specialize (BU eq_refl). simpl. destruct k.
+      + simpl. destruct poll.
+        * lia.
+        * pose proof (advance_cont_budget _ _ W ADV). lia.
+      + simpl. destruct poll; [lia|]. pose proof (advance_defer_budget _ _ ADV). lia.
+    - specialize (FR eq_refl AT). destruct poll; [lia|].
+      destruct k.
+      + pose proof (advance_cont_budget _ _ W ADV). lia.
+      + pose proof (advance_defer_budget _ _ ADV). lia. }
+  assert (JG1 : J g1).
+  { unfold J. destruct H1 as [HH HK]. rewrite HH, HK, A1. split.
+    - destruct (async (rn g)) eqn:AT.
+      + specialize (CNT eq_refl). lia.
+      + unfold g1. destruct a0 eqn:A0; [specialize (ST eq_refl); congruence|exact J1].
+    - intros L. destruct (J2 L) as [AF Z]. split; [exact AF|].
+      unfold g1. destruct a0 eqn:A0; [specialize (ST eq_refl); congruence|exact Z]. }
+  rewrite A1.
+  destruct (poll && async (rn g)) eqn:PA.
+  - apply andb_prop in PA. destruct PA as [-> AT].
+    destruct (fs_flags fs) eqn:FLG.
+    + destruct (intr_of (fs_ph fs)).
+      * split; [apply J_clear_async; exact JG1|split; reflexivity].
+      * split; [apply J_clear_async; apply (same_cnt_J g1); [apply upd_run_cnt; reflexivity|exact JG1]|split; reflexivity].
+    + split; [apply J_clear_async; apply (same_cnt_J g1); [apply upd_run_cnt; reflexivity|exact JG1]|reflexivity].
+  - split; [apply (same_cnt_J g1); [apply upd_run_cnt; reflexivity|exact JG1]|].
+    split; [|simpl; exact FL].
+    unfold LI. simpl. split; [exact Wph|]. rewrite A1. intros AT. specialize (CNT AT).
+    destruct poll; [simpl in PA; congruence|exact CNT].
+Qed.
+
+Definition post2 (t : task) (g : glob) (o : outcome) (g' : glob) : Prop :=
+  match t with
+  | TCallF _ _ => o = ONormal -> (async (rn g) = true -> g' = g) /\ (async (rn g') = false \/ g' = g)
+  | _ => o = ONormal -> async (rn g') = false
+  end.
+
+Lemma enter_frame_J c f env i0 g : J g ->
+  match enter_frame c f env i0 g with
+  | inl (o, g') => J g' /\ o <> ONormal /\ async (rn g) = true
+  | inr (fs, g1) => J g1 /\ LI fs g1 /\ async (rn g) = false
+  end.
+Proof.
+  intros JJ. unfold enter_frame. simpl.
+  destruct (async (rn g)) eqn:A.
+  - split; [apply J_clear_async; apply (same_cnt_J g); [apply upd_run_cnt; reflexivity|exact JJ]|split; [discriminate|reflexivity]].
+  - destruct (with_defers c || ef_start (rn g) || ef_defer (rn g) || ef_debug (rn g)).
+    + split; [apply (same_cnt_J g); [repeat split; simpl; auto|exact JJ]|]. split; [|reflexivity].
+      unfold LI. simpl. split; [unfold PRO_LEN; lia|]. rewrite A. discriminate.
+    + split; [apply (same_cnt_J g); [repeat split; simpl; auto|exact JJ]|]. split; [|reflexivity].
+      unfold LI. simpl. split; [unfold PRO_LEN; lia|]. rewrite A. discriminate.
+Qed.
+
+Lemma do_restore_J fx fs gp g o g' : do_restore fx fs gp g = (o, g') -> J g -> J g' /\ (o = ONormal -> async (rn g') = false).
+Proof.
+  unfold do_restore. intros H JJ.
+  assert (SC : same_cnt g (upd_run (restore_run fx fs) g)).
+  { apply upd_run_cnt. unfold restore_run. destruct fx; simpl; [|reflexivity].
+    destruct (panic_fun (rn g)) as [pf|]; simpl; [destruct (pf =? fs_env fs); reflexivity|reflexivity]. }
+  pose proof (same_cnt_J _ _ SC JJ) as J1.
+  destruct (async (rn (upd_run (restore_run fx fs) g))) eqn:A.
+  - inversion H; subst. split; [apply J_clear_async; exact J1|discriminate].
+  - destruct gp; inversion H; subst; (split; [exact J1|]); [discriminate|intros _; exact A].
+Qed.
+
+Lemma go_J : forall fuel P fx t g o g', go fuel P fx t g = (o, g') -> J g ->
+  (forall fs, t = TLoop fs -> LI fs g) -> J g' /\ post2 t g o g'.
+Proof.
+  induction fuel as [|fuel IH]; intros P fx t g o g' H JJ LL.
+  { simpl in H. inversion H; subst. split; [exact JJ|]. destruct t; simpl; discriminate. }
+  destruct t as [f i0|f env i0|fs|fs ds pk pk2 gp]; [simpl in H|cbn [go] in H|cbn [go] in H|cbn [go] in H].
+  - (* TCallF *)
+    destruct (nth_error P f) as [[|x c]|] eqn:NE;
+      try (inversion H; subst; split; [exact JJ|simpl; auto]).
+    destruct (go fuel P fx (TEnter f (next_env g) i0) (upd_run (set_curr (Some (next_env g))) (bump_env g))) as [o1 g2] eqn:E.
+    set (g1 := upd_run (set_curr (Some (next_env g))) (bump_env g)) in *.
+    assert (J1 : J g1) by (apply (same_cnt_J g); [repeat split|exact JJ]).
+    (* with the flag set the callee panics at its entry *)
+    assert (ENT : async (rn g) = true -> o1 <> ONormal).
+    { intros AT. destruct fuel as [|fuel']; [simpl in E; inversion E; discriminate|].
+      cbn [go] in E. pose proof (enter_frame_J (nth f P []) f (next_env g) i0 g1 J1) as EF.
+      destruct (enter_frame (nth f P []) f (next_env g) i0 g1) as [[oo gg]|[fs gg]].
+      - inversion E; subst. apply EF.
+      - destruct EF as (_ & _ & AF). unfold g1 in AF. simpl in AF. congruence. }
+    destruct (IH _ _ _ _ _ _ E J1) as [J2 P2]; [intros; discriminate|]. simpl in P2.
+    destruct o1; inversion H; subst.
+    + split; [apply (same_cnt_J g2); [apply upd_run_cnt; reflexivity|exact J2]|].
+      simpl. intros _. split; [intros AT; exfalso; apply (ENT AT); reflexivity|left; simpl; apply P2; reflexivity].
+    + split; [exact J2|simpl; discriminate].
+    + split; [exact J2|simpl; discriminate].
+  - (* TEnter *)
+    pose proof (enter_frame_J (nth f P []) f env i0 g JJ) as EF.
+    destruct (enter_frame (nth f P []) f env i0 g) as [[oo gg]|[fs g1]].
+    + inversion H; subst. split; [apply EF|]. simpl. intros ->. destruct EF as (_ & N & _). congruence.
+    + destruct EF as (J1 & L1 & _).
+      destruct (IH _ _ _ _ _ _ H J1) as [J2 P2]; [intros fs' EQ; inversion EQ; subst; exact L1|].
+      split; [exact J2|exact P2].
+  - (* TLoop *)
+    destruct (LL fs eq_refl) as [W BU].
+    set (ins := nth_error (nth (fs_fn fs) P []) (fs_ip fs)) in *.
+    pose proof (budget_pos _ W) as BP.
+    assert (CONT : forall c,
+              match c with
+              | CGo fs' g' => J g' /\ LI fs' g' /\ fs_flags fs' = fs_flags fs
+              | CIntrFlags fs2 g' => J g' /\ async (rn g') = false /\ fs_flags fs = true
+              | CIntrPlain g' => J g' /\ async (rn g') = false
+              end ->
+              match c with
+              | CGo fs' g' => go fuel P fx (TLoop fs') g'
+              | CIntrFlags fs2 g' => go fuel P fx (TDefers fs2 (fs_defers fs2) true false (Some PV_INTERRUPT)) g'
+              | CIntrPlain g' => (OPanic PV_INTERRUPT, g')
+              end = (o, g') -> J g' /\ post2 (TLoop fs) g o g').
+    { intros c HC HH. destruct c as [fs' g2|fs2 g2|g2].
+      - destruct HC as (J2 & L2 & _). destruct (IH _ _ _ _ _ _ HH J2) as [J3 P3]; [intros fs'' EQ; inversion EQ; subst; exact L2|].
+        split; [exact J3|exact P3].
+      - destruct HC as (J2 & _). destruct (IH _ _ _ _ _ _ HH J2) as [J3 P3]; [intros; discriminate|]. split; [exact J3|exact P3].
+      - inversion HH; subst. split; [apply HC|simpl; discriminate]. }
+    assert (PANIC : forall v g1, J g1 ->
+              (if fs_flags fs then go fuel P fx (TDefers fs (fs_defers fs) true false (Some v)) g1 else (OPanic v, g1)) = (o, g') ->
+              J g' /\ post2 (TLoop fs) g o g').
+    { intros v g1 J1 HH. destruct (fs_flags fs).
+      - destruct (IH _ _ _ _ _ _ HH J1) as [J3 P3]; [intros; discriminate|]. split; [exact J3|exact P3].
+      - inversion HH; subst. split; [exact J1|simpl; discriminate]. }
+    destruct (exec_instr fs ins g) as [k fs1 ip i g1|v g1|f i0|g0|] eqn:EX.
+    + destruct (exec_instr_cont_J _ _ _ _ _ _ _ _ EX JJ) as (J1 & AA & AD & PH & FL & ST & FR).
+      apply (CONT (after_stmt (async (rn g)) fs k fs1 ip i g1)); [|exact H].
+      apply after_stmt_J; auto.
+      intros AT. rewrite AA, AD. apply BU. exact AT.
+    + apply (PANIC v g1); [apply (exec_instr_panic_J _ _ _ _ _ EX JJ)|exact H].
+    + destruct (go fuel P fx (TCallF f i0) g) as [o1 g1] eqn:E.
+      destruct (IH _ _ _ _ _ _ E JJ) as [J1 P1]; [intros; discriminate|]. simpl in P1.
+      destruct o1.
+      * destruct (P1 eq_refl) as [PA PB].
+        apply (CONT (after_stmt (async (rn g)) fs SkCont fs (S (fs_ip fs)) (fs_i fs) g1)); [|exact H].
+        apply after_stmt_J; auto.
+        -- intros AT. rewrite (PA AT). exact AT.
+        -- intros AF AT. destruct PB as [PB|PB]; [congruence|]. rewrite PB in AT. congruence.
+        -- intros AT. rewrite (PA AT). apply BU. exact AT.
+      * apply (PANIC v g1 J1 H).
+      * inversion H; subst. split; [exact J1|simpl; discriminate].
+    + pose proof (exec_instr_leave' _ _ _ _ EX) as ->.
+      set (gl := count_ret (async (rn g)) ins (upd_run (set_sync SReturn) g)) in *.
+      assert (JL : J gl /\ async (rn gl) = async (rn g)).
+      { unfold gl, count_ret. destruct ins as [[]|]; try (split; [apply (same_cnt_J g); [apply upd_run_cnt; reflexivity|exact JJ]|reflexivity]).
+        destruct (async (rn g)) eqn:AT; [|split; [apply (same_cnt_J g); [apply upd_run_cnt; reflexivity|exact JJ]|simpl; exact AT]].
+        specialize (BU eq_refl). split; [|simpl; exact AT]. destruct JJ as [J1 J2]. unfold J. simpl. split; [lia|].
+        intros L. destruct (J2 L). congruence. }
+      destruct JL as [JL AL]. clearbody gl.
+      destruct (fs_flags fs).
+      * destruct (async (rn gl)) eqn:AG.
+        -- destruct (IH _ _ _ _ _ _ H (J_clear_async _ JL)) as [J3 P3]; [intros; discriminate|]. split; [exact J3|exact P3].
+        -- destruct (IH _ _ _ _ _ _ H JL) as [J3 P3]; [intros; discriminate|]. split; [exact J3|exact P3].
+      * unfold leave_plain in H.
+        assert (J2 : J (upd_run (set_intr (fs_sv_intr fs)) gl)) by (apply (same_cnt_J gl); [apply upd_run_cnt; reflexivity|exact JL]).
+        simpl in H. destruct (async (rn gl)) eqn:AG.
+        -- inversion H; subst. split; [apply J_clear_async; exact J2|simpl; discriminate].
+        -- inversion H; subst. split; [apply (same_cnt_J gl); [repeat split; simpl; auto|exact JL]|simpl; intros _; exact AG].
+    + inversion H; subst. split; [exact JJ|simpl; discriminate].
+  - (* TDefers *)
+    destruct ds as [|d ds'].
+    + destruct (do_restore_J _ _ _ _ _ _ H JJ) as [J1 P1]. split; [exact J1|exact P1].
+    + destruct (rundefer_pre fs pk pk2 gp g) as [pk1 g2] eqn:RP.
+      assert (J2 : J g2).
+      { unfold rundefer_pre in RP. inversion RP; subst. apply (same_cnt_J g); [|exact JJ].
+        destruct pk, pk2; repeat split; simpl; auto. }
+      destruct (match d with
+                | DIHook => match hook_call g2 with (Some v, g'0) => (OPanic v, g'0) | (None, g'0) => (ONormal, g'0) end
+                | DIFun f i0 => go fuel P fx (TCallF f i0) g2
+                end) as [o3 g3] eqn:EF.
+      assert (J3 : J g3).
+      { destruct d as [|f i0].
+        - destruct (hook_call g2) as [[v|] gh] eqn:HC; inversion EF; subst; apply (hook_call_J _ _ _ HC J2).
+        - destruct (IH _ _ _ _ _ _ EF J2) as [X _]; [intros; discriminate|exact X]. }
+      set (g4 := upd_run (pop_defer (defer_of (rn g)) (ef_defer (rn g))) g3) in *.
+      assert (J4 : J g4) by (apply (same_cnt_J g3); [apply upd_run_cnt; reflexivity|exact J3]).
+      assert (REST : forall pk' pk2' gp', go fuel P fx (TDefers fs ds' pk' pk2' gp') g4 = (o, g') ->
+                J g' /\ post2 (TDefers fs (d :: ds') pk pk2 gp) g o g').
+      { intros pk' pk2' gp' HH. destruct (IH _ _ _ _ _ _ HH J4) as [J5 P5]; [intros; discriminate|]. split; [exact J5|exact P5]. }
+      destruct o3.
+      * destruct pk1; [destruct (panic_fun (rn g3))|]; eapply REST; exact H.
+      * eapply REST; exact H.
+      * inversion H; subst. split; [exact J3|simpl; discriminate].
+Qed.
+
+(* the whole evaluation, from a fresh interpreter whose hook delivers the interrupt at its k-th call *)
+Lemma eval_bound : forall fuel P fx fm k o g', eval fuel P fx fm (glob0 k FInterrupt) = (o, g') ->
+  after_all g' <= 14 + after_def g' /\ (o = ONormal -> async (rn g') = false).
+Proof.
+  intros fuel P fx fm k o g' H. unfold eval in H.
+  set (g2 := upd_run (set_curr (Some 0)) (upd_run (fun r => set_dbgsig false (set_ef_debug false (set_debug_depth 0 (set_async false (set_sync SNone r))))) (glob0 k FInterrupt))) in *.
+  assert (J2 : J g2) by (unfold J, g2; simpl; split; [lia|auto]).
+  assert (A2 : async (rn g2) = false) by reflexivity.
+  destruct fm as [f i0|f].
+  - destruct (go fuel P fx (TCallF f i0) g2) as [o3 g3] eqn:E. inversion H; subst.
+    destruct (go_J _ _ _ _ _ _ _ E J2) as [[J3 _] P3]; [intros; discriminate|]. simpl in *.
+    split; [exact J3|]. intros ->. destruct (P3 eq_refl) as [_ [X|X]]; [exact X|rewrite X; exact A2].
+  - destruct (nth f P []) eqn:NE.
+    + inversion H; subst. simpl. split; [lia|reflexivity].
+    + destruct (go fuel P fx (TEnter f 0 0) g2) as [o3 g3] eqn:E. inversion H; subst.
+      destruct (go_J _ _ _ _ _ _ _ E J2) as [[J3 _] P3]; [intros; discriminate|]. simpl in *.
+      split; [exact J3|exact P3].
+Qed.
+
+(* definitions are kept: the executor (loop, unwinding, restore, RunExpr exit) never touches the interpreted global
+   except by executing an `x++` statement, and the program is not part of the mutable state at all *)
+Lemma hook_call_x g ov g1 : hook_call g = (ov, g1) -> gx g1 = gx g /\ gincs g1 = gincs g.
+Proof. unfold hook_call. intros H. destruct (S (hooks g) =? kk g); [destruct (flt g)|]; inversion H; subst; auto. Qed.
+
+Definition K (g g' : glob) : Prop := gx g' + gincs g = gx g + gincs g'.
+Lemma K_refl g : K g g. Proof. unfold K; lia. Qed.
+Lemma K_trans a b c : K a b -> K b c -> K a c. Proof. unfold K; lia. Qed.
+Lemma K_upd f g : K g (upd_run f g). Proof. unfold K; simpl; lia. Qed.
+Lemma K_hook g ov g1 : hook_call g = (ov, g1) -> K g g1.
+Proof. intros H. destruct (hook_call_x _ _ _ H). unfold K; lia. Qed.
+
+Lemma exec_instr_K fs ins g : match exec_instr fs ins g with
+  | RCont _ _ _ _ g1 => K g g1 | RPanic _ g1 => K g g1 | RLeave g1 => K g g1 | _ => True end.
+Proof.
+  unfold exec_instr. destruct ins as [ins|]; [|apply K_upd].
+  destruct ins; try apply K_refl; try apply K_upd; auto.
+  - destruct (hook_call g) as [[v|] g1] eqn:HC; apply (K_hook _ _ _ HC).
+  - unfold K; simpl; lia.
+  - destruct (fs_flags fs); [apply K_upd|exact I].
+  - destruct (call_recover (rn g)) as [b r]. destruct b; unfold K; simpl; lia.
+Qed.
+
+Lemma after_stmt_K a0 fs k fs1 ip i g : match after_stmt a0 fs k fs1 ip i g with
+  | CGo _ g' => K g g' | CIntrFlags _ g' => K g g' | CIntrPlain g' => K g g' end.
+Proof.
+  unfold after_stmt. destruct (advance (fs_ph fs1) k) as [ph poll].
+  destruct (poll && async (rn (if a0 then bump_after (sk_is_defer k) g else g))).
+  - destruct (fs_flags fs); [destruct (intr_of (fs_ph fs))|]; destruct a0; unfold K; simpl; lia.
+  - destruct a0; unfold K; simpl; lia.
+Qed.
+
+Lemma go_K : forall fuel P fx t g o g', go fuel P fx t g = (o, g') -> K g g'.
+Proof.
+  induction fuel as [|fuel IH]; intros P fx t g o g' H; [simpl in H; inversion H; apply K_refl|].
+  destruct t as [f i0|f env i0|fs|fs ds pk pk2 gp]; cbn [go] in H.
+  - destruct (nth_error P f) as [[|x c]|]; try (inversion H; apply K_refl).
+    destruct (go fuel P fx (TEnter f (next_env g) i0) (upd_run (set_curr (Some (next_env g))) (bump_env g))) as [o1 g2] eqn:E.
+    apply IH in E. destruct o1; inversion H; subst; unfold K in *; simpl in *; lia.
+  - unfold enter_frame in H. simpl in H.
+    destruct (async (rn g)).
+    + inversion H; subst. unfold K; simpl; lia.
+    + destruct (with_defers (nth f P []) || ef_start (rn g) || ef_defer (rn g) || ef_debug (rn g)); apply IH in H; unfold K in *; simpl in *; lia.
+  - set (ins := nth_error (nth (fs_fn fs) P []) (fs_ip fs)) in *.
+    assert (CONT : forall c g1, K g g1 -> match c with CGo _ g' => K g1 g' | CIntrFlags _ g' => K g1 g' | CIntrPlain g' => K g1 g' end ->
+              match c with
+              | CGo fs' g' => go fuel P fx (TLoop fs') g'
+              | CIntrFlags fs2 g' => go fuel P fx (TDefers fs2 (fs_defers fs2) true false (Some PV_INTERRUPT)) g'
+              | CIntrPlain g' => (OPanic PV_INTERRUPT, g')
+              end = (o, g') -> K g g').
+    { intros c g1 K1 K2 HH. destruct c; [apply IH in HH|apply IH in HH|inversion HH; subst]; eauto using K_trans. }
+    assert (PANIC : forall v g1, K g g1 ->
+              (if fs_flags fs then go fuel P fx (TDefers fs (fs_defers fs) true false (Some v)) g1 else (OPanic v, g1)) = (o, g') -> K g g').
+    { intros v g1 K1 HH. destruct (fs_flags fs); [apply IH in HH; eauto using K_trans|inversion HH; subst; exact K1]. }
+    pose proof (exec_instr_K fs ins g) as EK.
+    destruct (exec_instr fs ins g) as [k fs1 ip i g1|v g1|f i0|g0|].
+    + apply (CONT (after_stmt (async (rn g)) fs k fs1 ip i g1) g1 EK); [apply after_stmt_K|exact H].
+    + apply (PANIC v g1 EK H).
+    + destruct (go fuel P fx (TCallF f i0) g) as [o1 g1] eqn:E. apply IH in E.
+      destruct o1.
+      * apply (CONT (after_stmt (async (rn g)) fs SkCont fs (S (fs_ip fs)) (fs_i fs) g1) g1 E); [apply after_stmt_K|exact H].
+      * apply (PANIC v g1 E H).
+      * inversion H; subst; exact E.
+    + assert (KL : K g (count_ret (async (rn g)) ins g0)).
+      { unfold count_ret. destruct ins as [[]|]; auto. destruct (async (rn g)); auto; unfold K in *; simpl; lia. }
+      destruct (fs_flags fs).
+      * destruct (async (rn (count_ret (async (rn g)) ins g0))); apply IH in H; eapply K_trans; eauto; unfold K in *; simpl in *; lia.
+      * unfold leave_plain in H. simpl in H. destruct (async (rn (count_ret (async (rn g)) ins g0))); inversion H; subst; unfold K in *; simpl in *; lia.
+    + inversion H; apply K_refl.
+  - destruct ds as [|d ds'].
+    + unfold do_restore in H. destruct (async (rn (upd_run (restore_run fx fs) g))); [|destruct gp]; inversion H; subst; unfold K; simpl; lia.
+    + destruct (rundefer_pre fs pk pk2 gp g) as [pk1 g2] eqn:RP.
+      assert (K2 : K g g2) by (unfold rundefer_pre in RP; inversion RP; subst; destruct (pk || pk2); unfold K; simpl; lia).
+      destruct (match d with
+                | DIHook => match hook_call g2 with (Some v, g'0) => (OPanic v, g'0) | (None, g'0) => (ONormal, g'0) end
+                | DIFun f i0 => go fuel P fx (TCallF f i0) g2
+                end) as [o3 g3] eqn:EF.
+      assert (K3 : K g2 g3).
+      { destruct d as [|f i0]; [|apply IH in EF; exact EF].
+        destruct (hook_call g2) as [[v|] gh] eqn:HC; inversion EF; subst; apply (K_hook _ _ _ HC). }
+      assert (K4 : K g (upd_run (pop_defer (defer_of (rn g)) (ef_defer (rn g))) g3)) by (unfold K in *; simpl; lia).
+      destruct o3.
+      * destruct pk1; [destruct (panic_fun (rn g3))|]; apply IH in H; eapply K_trans; eauto.
+      * apply IH in H; eapply K_trans; eauto.
+      * inversion H; subst. eapply K_trans; [exact K2|exact K3].
+Qed.
+
+Lemma eval_keeps_definitions : forall fuel P fx fm g o g', eval fuel P fx fm g = (o, g') -> gx g' + gincs g = gx g + gincs g'.
+Proof.
+  intros fuel P fx fm g o g' H. unfold eval in H.
+  destruct fm as [f i0|f].
+  - match type of H with (let '(_, _) := ?X in _) = _ => destruct X as [o3 g3] eqn:E end.
+    apply go_K in E. inversion H; subst. unfold K in *; simpl in *; lia.
+  - destruct (nth f P []).
+    + inversion H; subst. simpl; lia.
+    + match type of H with (let '(_, _) := ?X in _) = _ => destruct X as [o3 g3] eqn:E end.
+      apply go_K in E. inversion H; subst. unfold K in *; simpl in *; lia.
+Qed.
